@@ -4,6 +4,7 @@ import (
 	"errors"
 	"fmt"
 	"os"
+	"os/exec"
 	"path/filepath"
 	"regexp"
 	"runtime"
@@ -58,6 +59,7 @@ func (c10) Thresholds(tier string) map[string]int64 {
 		"wait-commands":                   10,
 		"wait-fractional":                 6,
 		"race-detector-enabled-children":  1,
+		"race-canary-reported":            1,
 	}
 	for _, s := range c10Shapes {
 		th["shape:"+s] = 150
@@ -746,7 +748,38 @@ var raceHeader = regexp.MustCompile(`WARNING: DATA RACE`)
 // Parent counts race-detector reports written by the children.
 func (c10) Parent(p *core.ParentCtx, merged *core.Result) { countRaces(p, merged, "C10") }
 
+// raceCanary is a positive control of the race-detector plumbing: a helper process built with the
+// same -race binary and the same GORACE log_path mechanism performs one deliberate, harness-internal
+// data race; if no report shows up in its log file, zero reports from the children mean nothing.
+func raceCanary(args []string) int {
+	x := 0
+	done := make(chan struct{})
+	go func() { x++; close(done) }()
+	x++ // deliberately unsynchronised
+	<-done
+	time.Sleep(10 * time.Millisecond)
+	fmt.Println("canary done", x)
+	return 0
+}
+
+func init() { auxCommands["racecanary"] = raceCanary }
+
+func runCanary(p *core.ParentCtx, merged *core.Result) {
+	cmd := exec.Command(p.BinRace, "aux", "racecanary")
+	cmd.Env = append(os.Environ(), "GORACE=halt_on_error=0 log_path="+filepath.Join(p.WorkDir, "canary"))
+	_ = cmd.Run()
+	files, _ := filepath.Glob(filepath.Join(p.WorkDir, "canary.*"))
+	for _, f := range files {
+		if b, err := os.ReadFile(f); err == nil && raceHeader.Match(b) {
+			merged.Features["race-canary-reported"] = 1
+			return
+		}
+	}
+	merged.Inconclusive = append(merged.Inconclusive, "the race-detector canary (a deliberate race in a helper process) produced no report: the race plumbing does not work, zero reports are not evidence")
+}
+
 func countRaces(p *core.ParentCtx, merged *core.Result, id string) {
+	runCanary(p, merged)
 	files, _ := filepath.Glob(filepath.Join(p.WorkDir, "race.*"))
 	total := 0
 	seen := map[string]bool{}
